@@ -360,16 +360,38 @@ def estimator_refit_other_arguments(case, seed):
     return findings, {}
 
 
-def estimator_call_sequence(case, seed, rng, length=6):
-    """Random sequence of public calls; get_params and arrays before/after every call."""
+def estimator_call_sequence(case, seed, rng, length=6, prefitted=False):
+    """Random sequence of public calls; get_params and arrays before/after every call.
+    `prefitted`: the wrapped `estimator` parameter is a model the caller has trained already (wrappers accept that and predict
+    without a fit of their own); the sequence then starts with a prediction and what `get_params()['estimator']` reports
+    includes the caller's fitted attributes."""
     findings = []
     est = case.build()
     data = case.data(seed)
+    if prefitted:
+        inner = est.get_params(deep=False).get("estimator")
+        if inner is None or not hasattr(inner, "fit") or hasattr(inner, "missing_label"):
+            return findings, dict(raised="Skip: no plain wrapped estimator")
+        try:
+            kw1 = case.fit_kwargs(data, 1)
+            X1, y1 = np.asarray(kw1["X"]), np.asarray(kw1["y"], dtype=float)
+            m = ~np.isnan(y1) if y1.ndim == 1 else ~np.isnan(y1).any(axis=1)
+            if m.sum() < 2:
+                return findings, dict(raised="Skip: fewer than two labeled samples")
+            inner.fit(X1[m], y1[m])
+        except Exception as e:  # noqa: BLE001
+            return findings, dict(raised=f"Skip: pre-fitting the wrapped estimator: {type(e).__name__}")
     par0 = snap.params_snapshot(est)
     ops = ["fit1", "fit2"] + list(case.predict_methods) + list(case.dist_methods)
     if case.partial_fit_kwargs is not None:
         ops += ["pfit1", "pfit2"]
     seq = ["fit1"] + [rng.choice(ops) for _ in range(length)]
+    if prefitted:
+        first = list(case.predict_methods)[:1] or ["fit1"]
+        tail = [rng.choice(ops) for _ in range(length)]
+        if case.partial_fit_kwargs is not None:
+            tail[0] = "pfit1"          # prediction of the pre-trained model, then incremental training
+        seq = first + tail
     for op in seq:
         if op.startswith("fit"):
             kw, fn, name = case.fit_kwargs(data, int(op[-1])), est.fit, "fit"
@@ -733,6 +755,55 @@ def repro_budget(case, seed):
         findings.append(dict(kind="twin-differs", name="query_by_utility/update", what="two budget managers with equal parameters decide differently"))
     if len({repr(o) for o in outs}) > 1:
         findings.append(dict(kind="global-rng-dependence", name="query_by_utility/update", what="decisions depend on np.random.seed(...) although random_state is an integer"))
+    return findings, {}
+
+
+def repro_shared_instance(case, seed, warm=False):
+    """One RandomState instance handed to two freshly constructed objects (equal parameters): both must run through the
+    same call sequence identically.  `warm`: `update` for an already processed part of the stream comes before the first
+    query (warm start / replay), then the ordinary query/update loop."""
+    findings = []
+    inst = np.random.RandomState(seed % 1000 + 11)
+    inst.random_sample(2)
+
+    def run():
+        obj = case.build()
+        if "random_state" not in obj.get_params(deep=False):
+            raise RuntimeError("Skip: no random_state parameter")
+        obj.set_params(random_state=inst)
+        data = case.data(seed)
+        res = []
+        if case.family == "budget":
+            chunks = data["utility_chunks"]
+            if warm and chunks:
+                kw = case.query_kwargs(data, chunks[0])
+                n0 = len(np.asarray(list(kw.values())[0]))
+                _call(obj.update, **case.update_kwargs(data, chunks[0], np.arange(min(2, n0))[::1]))
+            for chunk in chunks:
+                queried = _call(obj.query_by_utility, **case.query_kwargs(data, chunk))
+                res.append(snap.canon(queried))
+                _call(obj.update, **case.update_kwargs(data, chunk, queried))
+        else:
+            models = case.models()
+            chunks = data["chunks"]
+            for chunk in chunks:
+                kw = case.query_kwargs(data, models, chunk)
+                queried, utilities = _call(obj.query, **kw)
+                res.append(snap.canon((queried, utilities)))
+                _call(obj.update, **case.update_kwargs(data, models, chunk, queried, utilities))
+        return res
+
+    try:
+        np.random.seed(GLOBAL_SEEDS[0])
+        a = run()
+        np.random.seed(GLOBAL_SEEDS[0])
+        b = run()
+    except Exception as e:
+        return findings, dict(raised=f"{type(e).__name__}: {str(e)[:100]}")
+    if a != b:
+        findings.append(dict(kind="shared-instance-differs" + ("-warm-start" if warm else ""), name="query/update",
+                             what="two freshly constructed objects given the same RandomState instance as random_state run through the same "
+                                  "call sequence differently" + (" (update before the first query)" if warm else "")))
     return findings, {}
 
 
